@@ -210,7 +210,7 @@ def check(case: dict) -> dict:
         raise Violation(signature, message)
 
     conf, neighbor = neighbor_for(session)
-    neg = exa.negotiate(neighbor, peer_open(session), exa.Direction.OUT)
+    neg = exa.negotiate(neighbor, peer_open(session), exa.Direction.IN)  # the daemon makes its one Negotiated per session with Direction.IN (reactor/protocol.py) and encodes with it
     if neg.msg_size != msg_size or bool(neg.asn4) != asn4 or sorted((int(x), int(y)) for x, y in neg.families) != sorted(neg_fams):
         raise RuntimeError(f'harness: negotiation differs from the session model (C07 decides that): {neg.msg_size} {neg.asn4} {neg.families} for {session}')
 
